@@ -338,8 +338,12 @@ class DSDLDefinition(ReadableDSDLFile):
     @property
     def text(self) -> str:
         if self._text is None:
-            with open(self._file_path) as f:
-                self._text = str(f.read())
+            try:
+                with open(self._file_path) as f:
+                    self._text = str(f.read())
+            except (OSError, UnicodeError) as ex:
+                # E.g., a directory named like a definition file, or a file that is not valid text.
+                raise InvalidDefinitionError("Cannot read the definition file: %s" % ex, self._file_path) from ex
         return self._text
 
     @property
